@@ -91,13 +91,29 @@ static string comments_out(const string& s) {
 
 static void all_helpers(const vector<string>& strs, const string& alphabet, bool big) {
   // one batch per (function, parameters)
+  // max_splits: 0 (unlimited), small caps, and caps far beyond any piece count up to SIZE_MAX (logged capped at 10^9:
+  // only the comparison with the number of delimiters matters)
+  static const size_t CAPS[] = {0, 1, 2, 3, 1000, (size_t)1 << 60, SIZE_MAX / 2, SIZE_MAX - 1, SIZE_MAX};
   for (char d : alphabet)
-    for (size_t m = 0; m <= 3; m++) {
-      string p = "{\"d\":" + to_string((unsigned char)d) + ",\"max\":" + to_string(m) + "}";
+    for (size_t mi = 0; mi < (big ? 4 : 9); mi++) {
+      size_t m = CAPS[mi];
+      string p = "{\"d\":" + to_string((unsigned char)d) + ",\"max\":" + to_string(min<size_t>(m, 1000000000)) + "}";
       Batch b1("split", p), b2("splitjoin", p), b3("splitctx", p), b4("splitctxjoin", p);
       const string ds(1, d);
+      size_t sidx = 0;
       for (auto& s : strs) {
-        auto pieces = split(s, d, m);
+        // every third string goes through the wide-character overload (each byte widened to one wchar_t)
+        vector<string> pieces;
+        if (sidx++ % 3 == 2) {
+          wstring ws;
+          for (unsigned char ch : s) ws.push_back((wchar_t)ch);
+          for (auto& wp : split(ws, (wchar_t)(unsigned char)d, m)) {
+            string np;
+            for (wchar_t wc : wp) np.push_back((char)(unsigned char)wc);
+            pieces.push_back(np);
+          }
+        } else
+          pieces = split(s, d, m);
         b1.add(js(s), jlist(pieces));
         b2.add(js(s), js(join(pieces, ds)));
         b3.add(js(s), ctx_out(s, d, m));
